@@ -20,7 +20,7 @@ PMIN = 1e-10   # per-test false-alarm bound of the exact Poisson test
 
 
 def n_cases(tier):
-    return 900 if tier == "quick" else 30000
+    return 1000 if tier == "quick" else 30000
 
 
 def timeout(tier):
@@ -41,7 +41,9 @@ def gen_state(rs, ns, nc, klass):
             elif k == "int":
                 v = float(rs.randint(0, 40))
             else:
-                v = rs.loguniform(100.0, 2000.0) if rs.chance(0.7) else float(rs.randint(100, 2000))
+                # (many just above 100: the regime where an implementation is tempted to switch to an approximation, and
+                #  where a bias of half a molecule per draw weighs most)
+                v = rs.uniform(100.0, 260.0) if rs.chance(0.45) else (rs.loguniform(100.0, 2000.0) if rs.chance(0.6) else float(rs.randint(100, 2000)))
             st.append(v)
     return st
 
@@ -152,7 +154,11 @@ def generate(seed, tier, index):
         # the same few boundary seeds recur in many cases)
         b = rf.choice([0, 0, 1, 2 ** 31 - 1, 2 ** 32 - 1])
         seeds += [b, b]
-    ops = [["poison", rf.choice([0, 0xff])], ["setup_batch", seeds], ["poison", rf.choice([0, 0x7f])], ["setup"],
+    batch = ["setup_batch", seeds]
+    if rf.chance(0.3):
+        # some of the set-ups are used (iterated, output fetched) and not finalized before the next one, the last one included
+        batch.append({"run_every": rf.choice([2, 3, len(seeds)])})
+    ops = [["poison", rf.choice([0, 0xff])], batch, ["poison", rf.choice([0, 0x7f])], ["setup"],
            ["observe"], ["output"], ["finalize"]]
     eps = [{"obj": 0, "kind": kind, "via": rf.choice(["LibRDEngine", "factory"]), "script": 0, "ops": ops}]
     return {"format": 1, "property": ID, "seed": seed, "tier": tier, "index": index, "build": "plain",
